@@ -112,8 +112,14 @@ def printer_control_f8(ctx):
                 (not st["ok"]) and '"C05"' in st["text"])
 
 
+def sort_model(ctx):
+    """FmtSort: the order in which map entries are printed; every key set of <= 3 (4) keys per kind, replayed on real maps"""
+    ctx.tlc_replay("MCSort", "Sort.cfg", ["sort-replay", "-prop", ctx.prop], consts=dict(MaxKeys=tier(ctx, 3, 4)))
+
+
 def c02(ctx):
     printer_control_f8(ctx)
+    sort_model(ctx)
     for sl in tier(ctx, ["qcls", "wrap", "smoke", "dir"], ["cls", "wrap", "panic", "smoke", "dir"]):
         printer_slice(ctx, sl)
     ctx.harness(["maporder-drive", "-prop", "C02"])   # maps print in key order: order-isomorphic unsafe keys, same redacted text
@@ -295,6 +301,7 @@ def c12(ctx):
 
 
 def c04(ctx):
+    sort_model(ctx)
     cfgs, maxtok = tier(ctx, ("{1, 2, 3, 4, 5, 6, 7}", 3), ("{1, 2, 3, 4, 5, 6, 7}", 4))
     ctx.tlc_replay("MCFormat", "Format.cfg", ["format-replay", "-prop", "C04"], consts=dict(MaxTok=maxtok, ArgConfigs=cfgs))
     ctx.harness(["fmtdiff-drive", "-n", str(tier(ctx, 150000, 3000000))])
